@@ -31,6 +31,9 @@ pub struct AF<'a> {
     pub tag: u32,
     pub task: u32,
     pub decl: Option<&'a ActorDecl>,
+    /// for the single instance of a registry-spawned service type: the default declaration of that type (`decl` stays
+    /// None for service tags, which in general denote a type, not an instance)
+    pub svc_decl: Option<&'a ActorDecl>,
     /// a fault was injected into this actor (panic, started error, cancellation)
     pub faulted: bool,
     /// fail_on_timeout fired
@@ -110,10 +113,12 @@ pub fn facts<'a>(cx: &'a Cx) -> BTreeMap<u32, AF<'a>> {
     for (task, a) in &ix.actors {
         let unique = ix.task_of(a.tag) == Some(*task);
         let decl = if unique { cx.prog.actors.iter().find(|d| d.tag == a.tag) } else { None };
+        let svc_decl = if a.tag >= 9000 && ix.tasks_of_tag.get(&a.tag).map(|v| v.len() == 1).unwrap_or(false) { cx.prog.defaults.iter().find(|d| d.tag == a.tag) } else { None };
         let mut af = AF {
             tag: a.tag,
             task: *task,
             decl,
+            svc_decl,
             faulted: false,
             timeout_failed: false,
             stops: vec![],
